@@ -104,7 +104,7 @@ PROPS["C03"] = {
 PROPS["C05"] = {
     "level": "proof",
     "technique": "Lean 4 proof (trun default resolution and optimisation invariance, data-offset arithmetic) + history correspondence/oracle through both encoders and both decoders",
-    "level_text": "Histories of sample additions (all five addition APIs, 1..4 tracks, 1..4 fragments per segment, optimisation on/off, both encoders, extra boxes) are encoded, decoded with their init through both decode paths and compared sample by sample; the Lean model covers the trun/tfhd layout (C01 layouts), default-value resolution, OptimizeTfhdTrun and SetTrunDataOffsets.",
+    "level_text": "Histories of sample additions (all five addition APIs, 1..4 tracks, 1..4 fragments per segment, optimisation on/off, both encoders, extra boxes; slice APIs called in several batches from caller-owned slices that the caller re-uses, overwrites or carves from one array afterwards) are encoded, decoded with their init through both decode paths and compared sample by sample with the values that were added; the same built segment is also taken through sequences of Size/Info/explicit optimisation/Encode/EncodeSW and every output must read back; the Lean model covers the trun/tfhd layout (C01 layouts), default-value resolution, OptimizeTfhdTrun (any number of passes: idempotence) and SetTrunDataOffsets.",
     "level_note": "Trusted: Lean kernel, allowed axioms, transcription validated by correspondence. Valid histories: existing track ids, per-track contiguous decode times (the API stores only the first sample's time), sizes < 2^31.",
     "trusted": ["Model/Frag.lean hand transcription of mp4/fragment.go, traf.go (OptimizeTfhdTrun), trun.go (AddSampleDefaultValues, GetFullSamples)"],
     "unmodelled": ["MediaSegment/Fragment container plumbing (direct oracle)", "emsg/prft/free/uuid extra boxes (direct oracle)"],
